@@ -537,6 +537,15 @@ func cmdCheck(args []string) int {
 		if reported[v.Rule+sig] {
 			continue
 		}
+		if strings.Contains(c.log, "fatal error: out of memory") || strings.Contains(c.log, "cannot allocate memory") {
+			// a worker process only grows (goroutines of finished bubbles stay parked with what they reference), so running
+			// out of memory says something about lal only if that run does it on its own, in a fresh process
+			o := runWorker(bin, prop, *tier, seed, c.idx, 1, 1, 0, filepath.Join(workDir, "oomconfirm.jsonl"), 4*tp.stall)
+			if !o.crashed && !o.stalled {
+				fmt.Fprintf(os.Stderr, "verifctl: note: a worker ran out of memory at idx %d after many runs, but that run completes in a fresh process; not a verdict\n", c.idx)
+				continue
+			}
+		}
 		if strings.HasPrefix(c.log, "STALL") {
 			// a stall counts only if it reproduces when that run index is executed alone with a generous watchdog
 			o := runWorker(bin, prop, *tier, seed, c.idx, 1, 1, 0, filepath.Join(workDir, "stallconfirm.jsonl"), 4*tp.stall)
